@@ -234,9 +234,7 @@ def step (d : DState) (l : Line) : DState × List Verdict :=
         let rec_ := (getStr l.obs "rec").getD ""
         let recL := getNatList l.obs "rec"
         let locked := match recL with | some (x :: _) => x | _ => 0
-        let model : Res String := (do
-          check .afterHardfork (decide (h ≥ rh))     -- rpcLoop: RHP2 disabled after the require height
-          rpcForm2 rh f (10 + rk) h st).bind fun r => .ok (natListStr (recList r))
+        let model : Res String := (rpcForm2 rh f (10 + rk) h st).bind fun r => .ok (natListStr (recList r))
         fin "rpcFormContract" rec_ model (contractClauses f h st 0 locked) (closedRec recL (formRecorded f st))
       | _, _, _, _, _ => bad
     | "rpcrenew2" =>
@@ -246,10 +244,7 @@ def step (d : DState) (l : Line) : DState × List Verdict :=
         let rec_ := (getStr l.obs "rec").getD ""
         let recL := getNatList l.obs "rec"
         let locked := match recL with | some (x :: _) => x | _ => 0
-        let model : Res String := (do
-          check .afterHardfork (decide (h ≥ rh))
-          check .locked (decide (e.revNo = maxRev))   -- session.ContractRevisable
-          rpcRenew2 fx rh e f fv (10 + rk) h st).bind fun r => .ok (natListStr (recList r))
+        let model : Res String := (rpcRenew2 fx rh e f fv (10 + rk) h st).bind fun r => .ok (natListStr (recList r))
         fin "rpcRenewAndClearContract" rec_ model
           (contractClauses f h st (baseCost st.storagePrice e f) locked)
           (closedRec recL (renew2Recorded e f fv st))
